@@ -16,6 +16,7 @@ using namespace hz;
 // first fragment of a crafted two-fragment packet; then the path is clean again.  Every packet the client writes to its tun device must
 // be one that was offered on the server's.
 inline CaseResult late_answer_case(Tape &t);
+inline CaseResult upgiveup_case(Tape &t);
 inline CaseResult downwrap_case(Tape &t, bool recover_suffix)
 {
 	if (t.chance(1, 4) && !recover_suffix) return late_answer_case(t);
@@ -206,6 +207,7 @@ inline CaseResult downwrap_case(Tape &t, bool recover_suffix)
 // answers to its three most recent queries); every packet it writes to its tun device must be one that was offered on the server's.
 inline CaseResult late_answer_case(Tape &t)
 {
+	if (t.chance(1, 2)) return upgiveup_case(t);
 	CaseResult r;
 	scn::Config c;
 	static const int QT[] = {1, 3, 2, 4, 5, 6};
@@ -274,6 +276,114 @@ inline CaseResult late_answer_case(Tape &t)
 	r.nontrivial = released && between % 8 == 7;
 	if (released) r.cls(between % 8 == 7 ? "late-copy-of-a-downstream-answer-eight-packets-on" : "late-copy-of-a-downstream-answer-without-wrap");
 	r.cls(c.lazy ? "lazy" : "immediate");
+	return r;
+}
+
+// Upstream give-up game (real client, real server; the network drops and holds back, nothing else).  The client sends the first
+// fragment of a two-fragment packet A, which arrives; every answer from then on is lost, so the client repeats the fragment, gives A up
+// and turns to the next packet B -- whose first fragment differs from A's by three bytes (+1 -2 +1: both Adler-32 sums unchanged) and
+// whose tail is different.  The queries carrying B's first fragment are lost; one of the answers that acknowledged A's first fragment
+// arrives late.  A client that numbers B like A takes that for the acknowledgement of B's first fragment and sends B's second one, which
+// the server appends to the fragment of A it still holds: a packet nobody offered.  A conforming client numbers B with the next
+// sequence number and the late acknowledgement means nothing to it.
+inline CaseResult upgiveup_case(Tape &t)
+{
+	CaseResult r;
+	scn::Config c;
+	static const int QT[] = {1, 3, 2, 4, 5, 6};
+	c.qtype = QT[t.pick({4, 3, 1, 2, 2, 2})];
+	c.lazy = t.chance(1, 2) ? 0 : 1;
+	c.downenc = (int)t.pick({5, 2, 2, 2, 2, 2});
+	c.frag = c.qtype == 6 ? t.range(50, 100) : t.range(60, 400);
+	if (t.chance(1, 3)) c.maxlen = t.range(120, 255);
+	c.srv_seed = t.u32() | 1; c.cli_seed = t.u32() | 1;
+	scn::Session s(c);
+	mon::TunMonitor tm; tm.attach(sim::W);
+	s.start_server(); s.start_client(0);
+	int srv_idx = s.srv->idx, up_codec = 0, Fu = 0;
+	int phase = 0;   // 0 everything passes, 1 answers are lost (the latest one is kept), 2 as 1 and first fragments other than A's are lost
+	bool gaveup = false;
+	Bytes a0_chunk; int n_a0 = 0, n_b0_dropped = 0, n_b1 = 0, a_seq = -1, b_seq = -1; bool released = false;
+	sim::Datagram kept; bool have_kept = false;
+	sim::W.router = [&](const sim::Datagram &dg) {
+		if (dg.from_inst == srv_idx) {
+			refproto::Answer a;
+			if (refproto::decode_answer(dg.data, a) && a.ok && !a.qname.empty() && tolower((unsigned char)a.qname[0]) == 's') {
+				std::string pl(a.payload.begin(), a.payload.end());
+				if (pl == "Base32") up_codec = 0; else if (pl == "Base64") up_codec = 1; else if (pl == "Base64u") up_codec = 2; else if (pl == "Base128") up_codec = 3;
+			}
+			if (phase >= 1) { if (n_a0 > 0 && !released) { kept = dg; have_kept = true; } return; }
+		} else if (dg.from_inst >= 1) {
+			refproto::Query q; refproto::QAck qa;
+			bool dq = refproto::decode_query(dg.data, c.domain, q) && refproto::query_ack(q, qa);
+			if (dq && qa.is_ping && phase >= 1 && n_a0 >= 4) gaveup = true;   // the ping the client sends when it gives a packet up
+			if (dq && qa.is_data && q.rest.size() > 4) {
+				Bytes chunk = ref::codec_decode(up_codec, q.rest.substr(4), true);
+				if (phase == 0 && !qa.last && (int)chunk.size() > Fu) Fu = (int)chunk.size();
+				if (phase >= 1 && qa.up_frag == 0) {
+					if (a0_chunk.empty()) { a0_chunk = chunk; a_seq = qa.up_seq; }
+					if (chunk == a0_chunk) n_a0++;
+					else if (phase == 2) {
+						n_b0_dropped++; b_seq = qa.up_seq;
+						if (have_kept && !released) { released = true; sim::W.deliver_after(kept, 30000); }   // the late acknowledgement of A's first fragment
+						return;
+					}
+				}
+				if (phase == 2 && qa.up_frag == 1) n_b1++;
+			}
+		}
+		sim::W.deliver_after(dg, sim::W.latency_us);
+	};
+	bool up = s.wait_all(150);
+	r.render = "adversarial network, upstream give-up game: " + c.describe();
+	if (sim::W.livelock) r.fail("C01:livelock", "simulation did not make progress");
+	r.cls("adversarial-network");
+	if (!up) { r.cls("handshake-failed"); return r; }
+	Bytes sip = s.server_tun_ip(), cip = sip;
+	for (auto &cmd : s.cli[0]->system_calls) {
+		unsigned a, b, cc, d; size_t p = cmd.find("ifconfig ");
+		if (p != std::string::npos && sscanf(cmd.c_str() + p, "ifconfig %*s %u.%u.%u.%u", &a, &b, &cc, &d) == 4) { cip = Bytes{(uint8_t)a, (uint8_t)b, (uint8_t)cc, (uint8_t)d}; break; }
+	}
+	std::vector<Bytes> offered;
+	auto offer = [&](const Bytes &pkt) { offered.push_back(pkt); sim::W.offer_tun(s.cli[0], pkt); };
+	auto incompressible = [&](size_t n, uint32_t seed) { Bytes b(n); uint32_t x = seed | 1; for (auto &v : b) { x ^= x << 13; x ^= x >> 17; x ^= x << 5; v = (uint8_t)(x >> 11); } return b; };
+	sim::W.run_for(2000000);
+	// calibration: a packet of several fragments shows how many bytes a full upstream fragment carries
+	offer(scn::tun_packet(sip, cip, incompressible(700, 77), 0x4000));
+	sim::W.run_for(8000000);
+	if (Fu < 40) { r.cls("no-calibration"); return r; }
+	Bytes pre = scn::tun_packet(sip, cip, incompressible((size_t)Fu - 7 - 24, t.u32()), 0x4300);   // exactly the bytes of the first fragment
+	bool ok = (int)pre.size() == Fu - 7;
+	Bytes mA, mB;
+	if (ok) {
+		Bytes pre2 = pre; ok = false;
+		for (size_t k = 30; k + 3 < pre2.size(); k++) if (pre2[k] < 255 && pre2[k + 1] >= 2 && pre2[k + 2] < 255) { pre2[k]++; pre2[k + 1] -= 2; pre2[k + 2]++; ok = true; break; }
+		mA = pre; mB = pre2;
+		Bytes ta = incompressible(40, 91), tb = incompressible(40, 92);
+		mA.insert(mA.end(), ta.begin(), ta.end()); mB.insert(mB.end(), tb.begin(), tb.end());
+		Bytes za = refproto::zcompress(mA), zb = refproto::zcompress(mB);
+		ok = ok && za.size() == mA.size() + 11 && zb.size() == mB.size() + 11 && !memcmp(za.data() + 7, mA.data(), mA.size()) && !memcmp(zb.data() + 7, mB.data(), mB.size()) && (int)za.size() <= 2 * Fu;
+	}
+	if (!ok) { r.cls("no-crafted-pair"); return r; }
+	phase = 1;
+	offer(mA);
+	for (int w = 0; w < 200 && !gaveup; w++) sim::W.run_for(50000);   // the client repeats A's first fragment three times, a second apart, and gives A up
+	if (!gaveup) { phase = 0; r.cls("no-give-up"); sim::W.run_for(5000000); return r; }
+	phase = 2;
+	offer(mB);                                                        // (while it repeats a fragment the client drops what it reads from its tun device)
+	for (int w = 0; w < 200 && n_b0_dropped < 2; w++) sim::W.run_for(100000);   // the client repeats A's first fragment, gives A up, sends B's first fragment
+	sim::W.run_for(1500000);
+	phase = 0;
+	sim::W.run_for(15000000);
+	r.render += scn::fmt(" | Fu=%d codec=%d A's first fragment seen %d times (seq %d), B's first fragment lost %d times (seq %d), late acknowledgement released=%d, second fragments seen=%d", Fu, up_codec, n_a0, a_seq, n_b0_dropped, b_seq, (int)released, n_b1);
+	if (sim::W.livelock) r.fail("C01:livelock", "simulation did not make progress");
+	for (auto &w : tm.writes_of(s.srv->idx)) if (std::find(offered.begin(), offered.end(), w.data) == offered.end()) {
+		r.fail("C01:merged-upstream-after-give-up", scn::fmt("the server wrote a %zu-byte packet to its tun device that was never offered on the client's: %s", w.data.size(), hexs(w.data, 48).c_str()) + "\n" + r.render);
+		break;
+	}
+	r.nontrivial = n_a0 >= 1 && n_b0_dropped >= 1 && released;
+	if (r.nontrivial) r.cls("upstream-give-up-then-late-acknowledgement");
+	else if (getenv("VERIF_DBG")) r.cls(scn::fmt("dbg Fu=%d a0=%d b0=%d kept=%d rel=%d b1=%d aseq=%d bseq=%d lazy=%d", Fu, n_a0 > 3 ? 4 : n_a0, n_b0_dropped > 2 ? 3 : n_b0_dropped, (int)have_kept, (int)released, n_b1 > 1 ? 2 : n_b1, a_seq, b_seq, c.lazy));
 	return r;
 }
 
